@@ -1225,6 +1225,16 @@ class SymMath:
     def fabs(self, x):
         return abs(x) if isinstance(x, Sym) else math.fabs(x)
 
+    def copysign(self, a, b):
+        if not (isinstance(a, Sym) or isinstance(b, Sym)):
+            return math.copysign(a, b)
+        mag = abs(a) if isinstance(a, Sym) else math.fabs(a)
+        if isinstance(b, Sym):
+            neg = ENG.branch(b.t < 0, [(v < 0, abs(v) > 1e-9) for v in b.s])
+        else:
+            neg = math.copysign(1.0, b) < 0
+        return -mag if neg else mag
+
     def floor(self, x):
         return sym_int(x, 'floor') if isinstance(x, Sym) else math.floor(x)
 
